@@ -179,6 +179,7 @@ class State:
         self.completed = False  # an earlier call returned normally after performing the automatic copy
         self.expected = expected
         self.w = w
+        self.allowed_extras = None  # top-level non-source files an UNINTERRUPTED automatic copy leaves behind (its markers)
 
 
 def judge(out, st, att, dst, src_before, src_after, history, site):
@@ -217,6 +218,16 @@ def judge(out, st, att, dst, src_before, src_after, history, site):
         cls = "C20:incomplete-copy-reported-usable" if not st.completed else "C20:completed-copy-damaged"
         out.violate(cls, site, f"history={history} result={res}: {_tree_diff(data, st.expected)}")
         return
+    if st.allowed_extras is not None:
+        # recovery equivalence: whatever else lies in the folder must be what an uninterrupted copy leaves there too (markers);
+        # a staging file or temporary entry of a killed attempt that survives completion makes the folder differ from the source
+        extras = {k for k, v in tree.items() if "/" not in k and v is not None and k not in st.expected}
+        left = sorted(extras - st.allowed_extras)
+        if left:
+            out.violate("C20:leftover-of-interrupted-attempt-survives", site,
+                        f"history={history} result={res}: {left[:4]} (sizes {[len(tree[k]) for k in left[:4]]}) - an uninterrupted copy "
+                        f"leaves only {sorted(st.allowed_extras)}")
+            return
     if st.completed:
         if touched_data:
             out.violate("C20:completed-copy-redone-or-touched", site,
@@ -457,7 +468,24 @@ class Spec(core.PropSpec):
 
         self._fired_inside = False
         self._judged = False
-        build_local(m, w)
+        allowed = None
+        if w["dst_initial"] not in ("empty", "content"):
+            # baseline for the recovery-equivalence clause: an uninterrupted copy on this machine, then the local side is wiped
+            build_local(m, w)
+            base = m.attempt(fn, None, list_seed=f"{ls}/base", sched_seed=f"{ss}/base", classify=role)
+            bt = snapshot(dst) if base["status"] == "ok" and os.path.exists(dst) else None
+            if bt is not None:
+                allowed = {k for k, v in bt.items() if "/" not in k and v is not None and k not in expected}
+            wipe_local(m, w)
+        else:
+            build_local(m, w)
+        _State = globals()["State"]
+
+        def State(w_, expected_):  # noqa: N802 - every history starts with the baseline's marker set
+            st_ = _State(w_, expected_)
+            st_.allowed_extras = allowed
+            return st_
+
         if plan["mode"] == "sequence":
             st = State(w, expected)
             hist = []
